@@ -279,12 +279,12 @@ def alphabet(g, n):
     """the edits tried at a node of the exhaustive tree whose current grid is `g` (n: a running
     number used to alternate the equivalent call forms)"""
     ops = []
-    present = [b.name for b in g.blocklist]
+    present = list(dict.fromkeys(b.name for b in g.blocklist))
     absent = [u for u in U if u not in g.block]
     for r in RK: ops.append(('ar', r))
     for r in RK: ops.append(('dr', r))
     ops.append(('cr',))
-    ops.append(('rr', RK[0], RK[1])); ops.append(('rr', RK[1], RK[0]))
+    ops.append(('rr', RK[0], RK[1])); ops.append(('rr', RK[1], RK[0])); ops.append(('rr', RK[0], 'rock3'))
     for u in U:
         for r in RK: ops.append(('ab', u, r))
     for u in present + absent[:1]: ops.append(('db', u))
@@ -461,20 +461,31 @@ def grid_as_ops(g):
     return ops
 
 
-def random_op(rng, g, geo_lists, valid_bias=0.93):
+PROFILES = {   # p_invalid: malformed / failing call; p_defect: calls in the classes that are known or candidate findings
+    'clean': {'p_invalid': 0.0, 'p_defect': 0.0},
+    'mixed': {'p_invalid': 0.01, 'p_defect': 0.04},
+    'hostile': {'p_invalid': 0.07, 'p_defect': 0.15},
+}
+
+
+def random_op(rng, g, geo_lists, prof):
     """one edit, biased towards calls that do something on the current grid"""
-    names = [b.name for b in g.blocklist]
+    names = list(dict.fromkeys(b.name for b in g.blocklist))
     rocks = [r.name for r in g.rocktypelist]
     keys = list(g.connection.keys())
-    valid = rng.random() < valid_bias
+    valid = rng.random() >= prof['p_invalid']
+    defect = rng.random() < prof['p_defect']
     kinds = ['ab'] * 12 + ['db'] * 7 + ['ac'] * 14 + ['dc'] * 8 + ['rn'] * 11 + ['ro'] * 6 + ['dm'] * 6 + \
             ['ar'] * 5 + ['dr'] * 3 + ['cr'] * 3 + ['rr'] * 4
     k = rng.choice(kinds)
     pick = lambda l, d: rng.choice(l) if l else d
     if k == 'ar':
-        return ('ar', pick(rocks, 'dfalt') if rng.random() < 0.25 else 'rk%03d' % rng.randint(0, 40))
+        if defect and rocks: return ('ar', rng.choice(rocks))                 # replaces a rock type (possibly in use)
+        unused = [r for r in rocks if not any(b.rocktype.name == r for b in g.blocklist)]
+        if unused and rng.random() < 0.2: return ('ar', rng.choice(unused))   # replaces an unused one
+        return ('ar', 'rk%03d' % rng.randint(0, 999))
     if k == 'dr':
-        if valid:
+        if valid and not defect:
             unused = [r for r in rocks if not any(b.rocktype.name == r for b in g.blocklist)]
             if unused: return ('dr', rng.choice(unused))
             return ('cr',)
@@ -486,9 +497,9 @@ def random_op(rng, g, geo_lists, valid_bias=0.93):
         return ('rr', a, b)
     if k == 'ab':
         r = pick(rocks, 'dfalt') if valid or rng.random() < 0.6 else 'nope '
-        if rng.random() < (0.12 if valid else 0.5) and names:
-            loose = [b.name for b in g.blocklist if not b.connection_name]
-            n = rng.choice(loose) if (valid and loose) else rng.choice(names)
+        loose = [b.name for b in g.blocklist if not b.connection_name]
+        if defect and names: n = rng.choice(names)
+        elif loose and rng.random() < 0.12: n = rng.choice(loose)
         else: n = fresh_name(rng, g.block)
         return ('ab', n, r)
     if k == 'db': return ('db', pick(names, 'nope1') if valid or rng.random() < 0.5 else 'nope1')
@@ -510,8 +521,8 @@ def random_op(rng, g, geo_lists, valid_bias=0.93):
         return ('dc', pick(names, 'nope1'), pick(names, 'nope2'))
     if k == 'rn':
         if not names: return ('rn', (('nope1', 'nope2'),), rng.randint(0, 1))
-        style = rng.choice(['fresh', 'fresh', 'fresh', 'all-fresh', 'swap', 'cycle', 'chain', 'absent-keys'] if valid else
-                           ['collide', 'noninj', 'swap', 'cycle', 'fresh'])
+        style = rng.choice(['collide', 'noninj', 'fresh'] if not valid else ['swap', 'cycle', 'chain'] if defect else
+                           ['fresh', 'fresh', 'fresh', 'all-fresh', 'absent-keys', 'to-deleted'])
         nk = len(names) if style == 'all-fresh' else min(len(names), rng.choice([1, 2, 2, 3, 4, 6, 10]))
         ks = rng.sample(names, nk)
         taken = set(g.block)
@@ -525,6 +536,8 @@ def random_op(rng, g, geo_lists, valid_bias=0.93):
             v = fresh_name(rng, taken)
             m = [(ks[i], ks[i + 1]) for i in range(nk - 1)] + [(ks[-1], v)]
             rng.shuffle(m)
+        elif style == 'to-deleted':          # targets that are keys of the map for blocks no longer in the grid
+            v = fresh_name(rng, taken); m = [(ks[0], v), ('nope1', 'nope2')]
         elif style == 'absent-keys':
             v = fresh_name(rng, taken); taken.add(v)
             m = [('nope1', fresh_name(rng, taken)), (ks[0], v)]
@@ -588,9 +601,11 @@ def random_worker(args):
         d0 = dump(g)
         out.obs.append(adler(d0) if hash_mode else d0)          # the state the prefix must rebuild
         consistent = not inv_violations(g)
-        bias = rng.choice([0.97, 0.93, 0.93, 0.8])
+        profname = rng.choice(['clean'] * 6 + ['mixed'] * 3 + ['hostile'] * 1)
+        prof = PROFILES[profname]
+        stats.lens['profile:' + profname] += 1
         for t in range(n):
-            op = random_op(rng, g, geo_lists if t < 3 else None, bias)
+            op = random_op(rng, g, geo_lists if t < 3 else None, prof)
             if any(not NAME_OK.match(x) for x in op_names(op)): continue
             ops.append(op)
             dom, key = classify(g, op) if consistent else (True, None)
